@@ -1,0 +1,84 @@
+//go:build verif
+
+// Contracts for the verification machinery in /verif (govc). This file is
+// comment-only: with the "verif" build tag off it is not part of the build,
+// with the tag on it adds no code.
+
+package varint
+
+// ---- specification functions (pure, mathematical view of a base-128 varint)
+
+//@ spec vlen(x uint64) int = x < 1<<7 ? 1 : x < 1<<14 ? 2 : x < 1<<21 ? 3 : x < 1<<28 ? 4 : x < 1<<35 ? 5 : x < 1<<42 ? 6 : x < 1<<49 ? 7 : x < 1<<56 ? 8 : x < 1<<63 ? 9 : 10
+
+//@ spec vbyte(x uint64, i int) byte = i < vlen(x) - 1 ? byte(x >> (7 * uint64(i))) | 0x80 : byte(x >> (7 * uint64(i)))
+
+//@ spec encb(b []byte, v uint64, j int) bool = j < vlen(v) ==> b[j] == vbyte(v, j)
+//@ spec isEnc(b []byte, v uint64) bool = len(b) >= vlen(v) && encb(b,v,0) && encb(b,v,1) && encb(b,v,2) && encb(b,v,3) && encb(b,v,4) && encb(b,v,5) && encb(b,v,6) && encb(b,v,7) && encb(b,v,8) && encb(b,v,9)
+
+//@ spec encbi(b []byte, v uint64, j int, i int) bool = j < i ==> b[j] == vbyte(v, j)
+//@ spec encpre(b []byte, v uint64, i int) bool = encbi(b,v,0,i) && encbi(b,v,1,i) && encbi(b,v,2,i) && encbi(b,v,3,i) && encbi(b,v,4,i) && encbi(b,v,5,i) && encbi(b,v,6,i) && encbi(b,v,7,i) && encbi(b,v,8,i) && encbi(b,v,9,i)
+
+//@ spec decb(b []byte, k int, i int) uint64 = i < k ? uint64(b[i] & 0x7f) << (7 * uint64(i)) : 0
+//@ spec dec(b []byte, k int) uint64 = decb(b,k,0) | decb(b,k,1) | decb(b,k,2) | decb(b,k,3) | decb(b,k,4) | decb(b,k,5) | decb(b,k,6) | decb(b,k,7) | decb(b,k,8) | decb(b,k,9)
+
+//@ spec tb(b []byte, i int) bool = i < len(b) && b[i] < 0x80
+//@ spec termL(b []byte) int = tb(b,0) ? 0 : tb(b,1) ? 1 : tb(b,2) ? 2 : tb(b,3) ? 3 : tb(b,4) ? 4 : tb(b,5) ? 5 : tb(b,6) ? 6 : tb(b,7) ? 7 : tb(b,8) ? 8 : tb(b,9) ? 9 : 10
+//@ spec hasVarint(b []byte) bool = termL(b) < 10 && !(termL(b) == 9 && b[9] > 1)
+
+// ---- packing
+
+//@ func Pack8
+//@   ensures len(r0) == vlen(uint64(n)) && isEnc(r0, uint64(n)) && fresh(r0)
+
+//@ func Pack16
+//@   ensures len(r0) == vlen(uint64(n)) && isEnc(r0, uint64(n)) && fresh(r0)
+
+//@ func Pack32
+//@   ensures len(r0) == vlen(uint64(n)) && isEnc(r0, uint64(n)) && fresh(r0)
+
+//@ func Pack64
+//@   ensures len(r0) == vlen(n) && isEnc(r0, n) && fresh(r0)
+//@   ensures cap(r0) == 10
+
+//@ func EncodedSize
+//@   ensures size == vlen(n)
+
+// ---- unpacking
+
+//@ func Unpack8
+//@   ensures r2 == nil ==> r1 == termL(blob) + 1 && hasVarint(blob) && uint64(r0) == dec(blob, r1)
+//@   ensures !hasVarint(blob) || dec(blob, termL(blob) + 1) > 255 ==> r2 != nil
+//@   ensures forall v uint8 :: isEnc(blob, uint64(v)) ==> r2 == nil && r0 == v && r1 == vlen(uint64(v))
+
+//@ func Unpack16
+//@   ensures r2 == nil ==> r1 == termL(blob) + 1 && hasVarint(blob) && uint64(r0) == dec(blob, r1)
+//@   ensures (r2 == nil) == (hasVarint(blob) && dec(blob, termL(blob) + 1) <= 65535)
+//@   ensures forall v uint16 :: isEnc(blob, uint64(v)) ==> r2 == nil && r0 == v && r1 == vlen(uint64(v))
+
+//@ func Unpack32
+//@   ensures r2 == nil ==> r1 == termL(blob) + 1 && hasVarint(blob) && uint64(r0) == dec(blob, r1)
+//@   ensures (r2 == nil) == (hasVarint(blob) && dec(blob, termL(blob) + 1) <= 4294967295)
+//@   ensures forall v uint32 :: isEnc(blob, uint64(v)) ==> r2 == nil && r0 == v && r1 == vlen(uint64(v))
+
+//@ func Unpack64
+//@   ensures r2 == nil ==> r1 == termL(blob) + 1 && hasVarint(blob) && r0 == dec(blob, r1)
+//@   ensures (r2 == nil) == hasVarint(blob)
+//@   ensures forall v uint64 :: isEnc(blob, v) ==> r2 == nil && r0 == v && r1 == vlen(v)
+
+// ---- helpers
+
+//@ func PrependLength
+//@   ensures len(r0) == vlen(uint64(len(data))) + len(data)
+//@   ensures isEnc(r0, uint64(len(data)))
+//@   ensures forall j int :: 0 <= j && j < len(data) ==> r0[vlen(uint64(len(data))) + j] == data[j]
+//@   ensures forall j int :: 0 <= j && j < len(data) ==> data[j] == old(data[j])
+
+//@ func GetNextBlock
+//@   ensures (r2 == nil) == (hasVarint(data) && dec(data, termL(data) + 1) <= uint64(len(data) - (termL(data) + 1)))
+//@   ensures r2 == nil ==> r1 == termL(data) + 1 + int(dec(data, termL(data) + 1)) && r1 <= len(data) && r1 >= 1
+//@   ensures r2 == nil ==> r0 == data[termL(data) + 1 : r1]
+//@   ensures r2 != nil ==> r1 == 0 && r0 == nil
+
+// ---- round trip (C10): unpacking a packed integer returns it and its exact size
+//@ lemma L-rt-64: forall b []byte, x uint64 :: isEnc(b, x) ==> hasVarint(b) && termL(b) + 1 == vlen(x) && dec(b, vlen(x)) == x
+//@ lemma L-min: forall b []byte, x uint64 :: hasVarint(b) && dec(b, termL(b) + 1) == x ==> termL(b) + 1 >= vlen(x)
